@@ -138,6 +138,8 @@ def generate(run_seed):
             # a resource in another encoding than UTF-8, correctly declared: parses fine directly
             scen["nodes"][n]["enc"] = rng.choice(["ISO-8859-1", "UTF-16"])
         scen["cache"][n] = rng.choice(CACHE_STATES)
+        if kind == "ok" and st.get("sizes").random() < 0.5:
+            scen["nodes"][n]["same_size"] = True
     # script: half of the runs follow a racy template (a deferred load of a root, then calls on
     # the root and on the resources it includes while the loaders are in flight)
     script = []
@@ -267,6 +269,9 @@ class World(object):
         if node.get("sectionless"):
             text = ('<?xml version="1.0" encoding="UTF-8"?>\n<odML version="1.1">\n  <id>%s</id>\n'
                     '  <author>%s%s</author>\n</odML>\n' % (uid(name, "doc"), name, variant))
+        if node.get("same_size"):
+            # every version of this resource has the same number of bytes (a digit changed)
+            text += "<!--%s-->\n" % ("." * (8 - len(variant)))
         enc = node.get("enc")
         if enc:
             text = text.replace('encoding="UTF-8"', 'encoding="%s"' % enc).replace(
